@@ -1,26 +1,26 @@
----------------------------- MODULE MCPfxTable ----------------------------
-(* Model-checking instance of PfxTable + behaviour generation (history variable) *)
-EXTENDS PfxTable, Json
+---------------------------- MODULE MCSpkiTable ----------------------------
+(* Model-checking instance of SpkiTable + behaviour generation (history variable) *)
+EXTENDS SpkiTable, Json
 MCSrcs == {"A", "B"}
-MCRec == {[f |-> 4, w |-> <<p[1], 0>>, l |-> p[2], m |-> p[2], a |-> "1", s |-> s] :
-             p \in {<<0, 0>>, <<32768, 1>>, <<32768, 2>>}, s \in MCSrcs}
+MCKey == [a : {"1", "2"}, k : {"s1"}, p : {"p1", "p2"}, s : MCSrcs] \cup [a : {"1"}, k : {"s2"}, p : {"p1"}, s : {"A"}]
+
 VARIABLE hist
 CONSTANT D
 Rl(op) == hist' = Append(hist, op)
 NextH ==
   \/ /\ ph = "idle" /\ UNCHANGED <<ph, rs>>
-     /\ \/ \E e \in Rec : Add(1, e) /\ Rl([op |-> "add", t |-> 1, r |-> e])
-        \/ \E e \in Rec : Remove(1, e) /\ Rl([op |-> "rm", t |-> 1, r |-> e])
+     /\ \/ \E e \in Key : Add(1, e) /\ Rl([op |-> "add", t |-> 1, r |-> e])
+        \/ \E e \in Key : Remove(1, e) /\ Rl([op |-> "rm", t |-> 1, r |-> e])
         \/ \E s \in Srcs : SrcRemove(1, s) /\ Rl([op |-> "srcrm", t |-> 1, s |-> s])
   \/ \E s \in Srcs : BeginReload(s) /\ Rl([op |-> "init", t |-> 2, cbk |-> 0])
   \/ CopyOthers /\ Rl([op |-> "copyx", src |-> 1, dst |-> 2, s |-> rs])
   \/ /\ ph = "shadow" /\ UNCHANGED <<ph, rs>>
-     /\ \E e \in {x \in Rec : x.s = rs} : \/ Add(2, e) /\ Rl([op |-> "add", t |-> 2, r |-> e])
+     /\ \E e \in {x \in Key : x.s = rs} : \/ Add(2, e) /\ Rl([op |-> "add", t |-> 2, r |-> e])
                                           \/ Remove(2, e) /\ Rl([op |-> "rm", t |-> 2, r |-> e])
-  \/ Abort /\ Rl([op |-> "freeq", t |-> 2])
+  \/ Abort /\ Rl([op |-> "free", t |-> 2])
   \/ SwapIn /\ Rl([op |-> "swap", a |-> 1, b |-> 2])
   \/ Diff /\ Rl([op |-> "diff", new |-> 1, old |-> 2, s |-> rs])
-  \/ Finish /\ Rl([op |-> "freeq", t |-> 2])
+  \/ Finish /\ Rl([op |-> "free", t |-> 2])
 XIdle == Idle /\ UNCHANGED hist
 XBeginReload == (\E s \in Srcs : BeginReload(s)) /\ UNCHANGED hist
 XCopyOthers == CopyOthers /\ UNCHANGED hist
